@@ -41,3 +41,29 @@ void h_track_metadata(void)
   VERIF_COVER(g_exc == EXC_NONE && g_tm_entries == 3, "three entries then the terminating key");
   VERIF_COVER(g_exc != EXC_NONE, "truncated list");
 }
+
+/* ---- the HxcMfmFile constructor: which valid headers are supported, and one adapter per side.  C05: "HxC MFM ... one or two
+   sides": a header with one or two sides (and the interface type the reader knows, 4) is accepted and kept; read_all_sectors is
+   run for each side 0 .. sides-1, in order, and the adapter made from it is that side's. ---- */
+static struct { unsigned long calls; _Bool in_order, same_side; } HS;
+static void hxc_side_model(unsigned int read_side, unsigned int adapter_side)
+{ if (read_side != HS.calls) HS.in_order = 0; if (read_side != adapter_side) HS.same_side = 0; if (HS.calls < 1000) HS.calls++; }
+#define HXC_SIDE_LOOP_CONTRACT \
+  __CPROVER_assigns(side, HS) \
+  __CPROVER_loop_invariant(side <= header_.sides && HS.calls == side && HS.in_order && HS.same_side) \
+  __CPROVER_decreases(header_.sides - side)      /* header_ is the extraction's member macro (self->header_) */
+#include "hxc_check_supported.inc"
+#include "hxc_side_loop.inc"
+static void hxc_check_supported(const struct HxcHeader *header, struct HxcHeader *header_out)
+__CPROVER_requires(__CPROVER_is_fresh(header, sizeof(*header)) && __CPROVER_is_fresh(header_out, sizeof(*header_out)) && g_exc == EXC_NONE && !g_exc_by_pointer)
+__CPROVER_assigns(*header_out, g_exc, g_exc_by_pointer)
+__CPROVER_ensures(!g_exc_by_pointer)
+__CPROVER_ensures((g_exc == EXC_NONE) == (header->sides <= 2 && header->interface_type == 4))
+__CPROVER_ensures(g_exc == EXC_NONE ==> (header_out->sides == header->sides && header_out->tracks == header->tracks && header_out->track_list_offset == header->track_list_offset &&
+                                         header_out->interface_type == header->interface_type));
+static void hxc_side_loop(const struct HxcMfmFile *self)
+__CPROVER_requires(__CPROVER_is_fresh(self, sizeof(*self)) && self->header_.sides <= 2 && HS.calls == 0 && HS.in_order && HS.same_side)
+__CPROVER_assigns(HS)
+__CPROVER_ensures(HS.calls == self->header_.sides && HS.in_order && HS.same_side);
+void h_check_supported(void) { const struct HxcHeader *h; struct HxcHeader *o; g_exc = EXC_NONE; g_exc_by_pointer = 0; hxc_check_supported(h, o); }
+void h_side_loop(void) { const struct HxcMfmFile *f; HS.calls = 0; HS.in_order = 1; HS.same_side = 1; hxc_side_loop(f); }
